@@ -343,7 +343,7 @@ def gen_pairs(rng, labels, k):
 def run(ctx):
     ac.setup(ctx)
     rng = ctx.rng
-    n_inst = ctx.scale(40, 260)
+    n_inst = ctx.scale(40, 800)
     for i in range(n_inst):
         if ctx.out_of_time():
             break
